@@ -6,8 +6,8 @@ CONFIG = {
     "lean_props": "J5V/Props/C07.lean",
     "extract": ["setext", "imports"],
     "streams": [
-        stream("total", {"quick": 9600, "thorough": 64000, "search": 9600}, {"quick": 16, "thorough": 16, "search": 16},
-               "every shard first runs the FULL rule x field-type matrix (each documented rule - pattern / minLength / maxLength / const / "
+        stream("total", {"quick": 4800, "thorough": 48000, "search": 4800}, {"quick": 16, "thorough": 16, "search": 16},
+               "the 16 shards share (round-robin) the FULL rule x field-type matrix (each documented rule - pattern / minLength / maxLength / const / "
                "minimum / maximum / exclusiveMinimum / exclusiveMaximum / multipleOf with small and format-boundary literals / "
                "minProperties / maxProperties / in / notIn / minItems / maxItems / uniqueItems / minPairs / maxPairs - on each field type "
                "that has it, bare, as array item and as map value, plain and `!` required; each cell is a file that contains only that one "
